@@ -121,3 +121,24 @@ Definition ktab_eq (a b : ktab) : bool := list_beq beq (canon a) (canon b).
 (* stacking: some mountpoint carries two mounts *)
 Fixpoint has_dup (k : ktab) : bool :=
   match k with [] => false | x :: r => mem_path x r || has_dup r end.
+
+(* "... so one later umount fully unmounts the layer": a later, undisturbed umount by a fresh
+   invocation, as IUmountLayer / IUmountOne perform it on a table it has just read.
+   fs.Mounts.GetMountAndSubmounts lists EVERY mount line at or below the build directory
+   (a mountpoint carrying two mounts is listed twice), sort.Stable orders the list by Go's
+   string [<], and manage.unmountLayer walks it from the end: deepest first, one umount(2)
+   per listed line; the first failing umount ends the command and leaves the table as it is
+   at that point. *)
+Fixpoint umount_seq (k : ktab) (l : list bytes) : ktab :=
+  match l with
+  | [] => k
+  | p :: r => match kumount_abs k p with
+              | Some k' => umount_seq k' r
+              | None => k
+              end
+  end.
+(* every mountpoint of the table (umount -all over layers that cover the table) *)
+Definition later_umount_all (k : ktab) : ktab := umount_seq k (rev (Lex.sort k)).
+(* one layer: the mount lines at or below its build directory *)
+Definition later_umount_layer (bld : bytes) (k : ktab) : ktab :=
+  umount_seq k (rev (Lex.sort (filter (at_or_below bld) k))).
